@@ -168,7 +168,7 @@ func sysC01(t *testing.T, prop string) {
 	res.Obs("stream_established", 1)
 	faults := []string{"sigkill-active-proxy", "relay-tcp-cut", "sigstop-active-proxy"}
 	if vlib.Thorough() {
-		faults = append(faults, "sigterm-active-proxy", "sigkill-active-proxy", "relay-tcp-cut", "sigkill-all-proxies", "sigstop-active-proxy", "relay-tcp-cut")
+		faults = append(faults, "sigterm-active-proxy", "kill-next-proxy-on-offer", "relay-tcp-cut", "sigkill-all-proxies", "kill-next-proxy-on-answer", "answer-lost", "sigstop-active-proxy", "answer-delayed", "relay-tcp-cut")
 	}
 	if prop == "C20" {
 		faults = []string{"sigkill-active-proxy", "relay-tcp-cut"}
@@ -177,6 +177,9 @@ func sysC01(t *testing.T, prop string) {
 		if d, e := main.state(); d || e != "" {
 			break
 		}
+		s.front.mu.Lock()
+		s.front.onOffer, s.front.onAnswer = nil, nil // traps of the previous fault
+		s.front.mu.Unlock()
 		ap, fc := s.activeProxy()
 		before := s.progress(main)
 		switch f {
@@ -206,6 +209,44 @@ func sysC01(t *testing.T, prop string) {
 			if fc != nil {
 				fc.cut()
 			}
+		case "kill-next-proxy-on-offer", "kill-next-proxy-on-answer", "answer-lost", "answer-delayed":
+			// faults in the middle of a redial: the carrying proxy is killed, and the
+			// rendezvous that follows is hit as well (the next matched proxy dies when
+			// it is handed the offer / when its answer passes; or the answer is lost / late)
+			var once sync.Once
+			fname := f
+			trap := func(port int) {
+				once.Do(func() {
+					if p := s.procOfLocalPort(port); p != nil {
+						killed[p] = true
+						p.signal(syscall.SIGKILL)
+						res.Obs("phase_faults_hit_"+fname, 1)
+						go s.startProxy()
+					}
+				})
+			}
+			s.front.mu.Lock()
+			switch f {
+			case "kill-next-proxy-on-offer":
+				s.front.onOffer = trap
+			case "kill-next-proxy-on-answer":
+				s.front.onAnswer = trap
+			}
+			s.front.mu.Unlock()
+			if f == "answer-lost" {
+				atomic.StoreInt32(&s.front.dropAnswers, 1)
+			}
+			if f == "answer-delayed" {
+				atomic.StoreInt32(&s.front.delayAnswers, 1)
+			}
+			if ap != nil {
+				killed[ap] = true
+				ap.signal(syscall.SIGKILL)
+				s.startProxy()
+			} else if fc != nil {
+				fc.cut()
+			}
+			s.startProxy()
 		case "sigkill-all-proxies":
 			s.mu.Lock()
 			ps := append([]*proc{}, s.procs...)
